@@ -795,6 +795,9 @@ SWEEP = ["reusable/test_vector.cpp",
 
 # name anchors (validated by tools/rename_sweep.py; a vanished name is exit 2, see core.check_anchor_names)
 ANCHORS = {
+    'clear': ['^babylon::ReusableVector(<|$)'],
+    'assign': ['^babylon::ReusableVector(<|$)'],
+    'emplace_back': ['^babylon::ReusableVector(<|$)'],
     '_allocator': ['^babylon::ReusableVector(<|$)'],
     '_capacity': ['^babylon::ReusableVector(<|$)'],
     '_clear_times': ['^babylon::ReusableManager(<|$)'],
